@@ -94,7 +94,7 @@ def run(tier):
             tot[k] += sm.get(k, 0)
         for i, n in enumerate(sm["ops"]):
             ops_hist[i] += n
-        if sm["overflow"]:
+        if sm.get("overflow") or sm.get("aborted"):
             ck.exhaustive = False
         for v in res["viols"]:
             lab = job["groups"][0].label
